@@ -77,6 +77,7 @@ struct World {
     iters: HashMap<String, fjall::Iter>,
     batches: HashMap<String, fjall::OwnedWriteBatch>,
     otx: HashMap<String, fjall::OptimisticWriteTx>,
+    stx: HashMap<String, fjall::SingleWriterWriteTx<'static>>,
 }
 
 fn kv(args: &[&str]) -> HashMap<String, String> {
@@ -144,6 +145,7 @@ impl World {
         self.snaps.clear();
         self.batches.clear();
         self.otx.clear();
+        self.stx.clear();
         self.ks.clear();
         self.db = None;
     }
@@ -189,6 +191,71 @@ impl World {
             }
         }
         format!("[{}]", out.join(","))
+    }
+}
+
+fn fmt_guard(g: Option<fjall::Guard>) -> String {
+    match g {
+        None => "none".into(),
+        Some(g) => match g.into_inner() {
+            Ok((k, v)) => format!("{}:{}", hex(&k), hex(&v)),
+            Err(e) => format!("err:{}", errname(&e)),
+        },
+    }
+}
+
+fn collect(it: impl Iterator<Item = fjall::Guard>) -> String {
+    let mut out = vec![];
+    for g in it {
+        match g.into_inner() {
+            Ok((k, v)) => out.push(format!("{}:{}", hex(&k), hex(&v))),
+            Err(e) => return format!("err:{}", errname(&e)),
+        }
+    }
+    format!("[{}]", out.join(","))
+}
+
+/// upper bound of the keys starting with `p` (p + 0xff..): good enough for the short keys used in scenarios
+fn prefix_end(p: &[u8]) -> Vec<u8> {
+    let mut e = p.to_vec();
+    e.extend_from_slice(&[0xff; 8]);
+    e
+}
+
+/// one read through any view (`Readable`): the same code serves snapshots and both kinds of write transactions
+fn read_view<R: Readable>(r: &R, ks: &Keyspace, method: &str, key: &[u8]) -> String {
+    match method {
+        "get" => match r.get(ks, key) {
+            Ok(Some(v)) => format!("some:{}", hex(&v)),
+            Ok(None) => "none".into(),
+            Err(e) => format!("err:{}", errname(&e)),
+        },
+        "contains_key" => match r.contains_key(ks, key) {
+            Ok(b) => b.to_string(),
+            Err(e) => format!("err:{}", errname(&e)),
+        },
+        "size_of" => match r.size_of(ks, key) {
+            Ok(Some(v)) => format!("some:{v}"),
+            Ok(None) => "none".into(),
+            Err(e) => format!("err:{}", errname(&e)),
+        },
+        "first_key_value" => fmt_guard(r.first_key_value(ks)),
+        "last_key_value" => fmt_guard(r.last_key_value(ks)),
+        "iter" => collect(r.iter(ks)),
+        "iter_rev" => collect(r.iter(ks).rev()),
+        "range" => collect(r.range(ks, vec![0x6b]..prefix_end(&[0x6b]))),
+        "range_key" => collect(r.range(ks, key.to_vec()..prefix_end(key))),
+        "prefix" => collect(r.prefix(ks, vec![0x6b])),
+        "prefix_key" => collect(r.prefix(ks, key.to_vec())),
+        "len" => match r.len(ks) {
+            Ok(n) => n.to_string(),
+            Err(e) => format!("err:{}", errname(&e)),
+        },
+        "is_empty" => match r.is_empty(ks) {
+            Ok(b) => b.to_string(),
+            Err(e) => format!("err:{}", errname(&e)),
+        },
+        _ => "err:BadMethod".into(),
     }
 }
 
@@ -266,6 +333,7 @@ fn main() {
         iters: HashMap::new(),
         batches: HashMap::new(),
         otx: HashMap::new(),
+        stx: HashMap::new(),
     };
     let mut threads: HashMap<String, std::thread::JoinHandle<String>> = HashMap::new();
     for (ln, line) in text.lines().enumerate() {
@@ -405,6 +473,189 @@ fn main() {
                 fjall::verif::release_pause(a[0]);
                 "ok".into()
             }
+            "kiter" => {
+                // kiter <id> <ks> <iter|range|prefix> [prefix-hex]
+                let k = w.ks.get(a[1]).expect("ks").inner().clone();
+                let p = a.get(3).map(|x| unhex(x)).unwrap_or_else(|| vec![0x6b]);
+                let it = match a[2] {
+                    "range" => k.range(p.clone()..prefix_end(&p)),
+                    "prefix" => k.prefix(p),
+                    _ => k.iter(),
+                };
+                w.iters.insert(a[0].to_string(), it);
+                "ok".into()
+            }
+            "it_next" => fmt_guard(w.iters.get_mut(a[0]).expect("iter").next()),
+            "it_next_back" => fmt_guard(w.iters.get_mut(a[0]).expect("iter").next_back()),
+            "it_rest" => match w.iters.remove(a[0]) {
+                Some(it) => collect(it),
+                None => "err:NoIter".into(),
+            },
+            "it_drop" => {
+                w.iters.remove(a[0]);
+                "ok".into()
+            }
+            "view_read" => {
+                // view_read <view> <ks> <method> <key> [tag]
+                let k = w.ks.get(a[1]).expect("ks").inner().clone();
+                let key = unhex(a[3]);
+                if let Some(s) = w.snaps.get(a[0]) {
+                    read_view(s, &k, a[2], &key)
+                } else if let Some(t) = w.otx.get(a[0]) {
+                    read_view(t, &k, a[2], &key)
+                } else if let Some(t) = w.stx.get(a[0]) {
+                    read_view(t, &k, a[2], &key)
+                } else {
+                    "err:NoView".into()
+                }
+            }
+            "snap_dump" => {
+                let s = w.snaps.get(a[0]).expect("snap");
+                let k = w.ks.get(a[1]).expect("ks").inner();
+                collect(s.iter(k))
+            }
+            "tx" => {
+                let id = a[0].to_string();
+                match a[1] {
+                    "begin" => match w.db.as_ref().expect("db") {
+                        Db::Opt(d) => match d.write_tx() {
+                            Ok(t) => {
+                                w.otx.insert(id, t);
+                                "ok".into()
+                            }
+                            Err(e) => format!("err:{}", errname(&e)),
+                        },
+                        Db::Single(d) => {
+                            // the transaction borrows the database handle; handles are dropped before the database in close()
+                            let d2: &'static SingleWriterTxDatabase = unsafe { &*(d as *const SingleWriterTxDatabase) };
+                            w.stx.insert(id, d2.write_tx());
+                            "ok".into()
+                        }
+                        Db::Plain(_) => "err:NotTransactional".into(),
+                    },
+                    "insert" | "remove" | "remove_weak" | "take" | "fetch_update" | "update_fetch" => {
+                        let key = unhex(a[3]);
+                        let val = a.get(4).map(|x| unhex(x)).unwrap_or_default();
+                        if let Some(t) = w.otx.get_mut(&id) {
+                            let Some(Ks::Opt(k)) = w.ks.get(a[2]) else { println!("R {} tx => err:NoKs", ln + 1); continue };
+                            match a[1] {
+                                "insert" => { t.insert(k, key, val); "ok".into() }
+                                "remove" => { t.remove(k, key); "ok".into() }
+                                "remove_weak" => { t.remove_weak(k, key); "ok".into() }
+                                "take" => match t.take(k, key) { Ok(Some(v)) => format!("some:{}", hex(&v)), Ok(None) => "none".into(), Err(e) => format!("err:{}", errname(&e)) },
+                                "fetch_update" => match t.fetch_update(k, key, |_| Some(val.clone().into())) { Ok(Some(v)) => format!("some:{}", hex(&v)), Ok(None) => "none".into(), Err(e) => format!("err:{}", errname(&e)) },
+                                _ => match t.update_fetch(k, key, |_| Some(val.clone().into())) { Ok(Some(v)) => format!("some:{}", hex(&v)), Ok(None) => "none".into(), Err(e) => format!("err:{}", errname(&e)) },
+                            }
+                        } else if let Some(t) = w.stx.get_mut(&id) {
+                            let Some(Ks::Single(k)) = w.ks.get(a[2]) else { println!("R {} tx => err:NoKs", ln + 1); continue };
+                            match a[1] {
+                                "insert" => { t.insert(k, key, val); "ok".into() }
+                                "remove" => { t.remove(k, key); "ok".into() }
+                                "remove_weak" => { t.remove_weak(k, key); "ok".into() }
+                                "take" => match t.take(k, key) { Ok(Some(v)) => format!("some:{}", hex(&v)), Ok(None) => "none".into(), Err(e) => format!("err:{}", errname(&e)) },
+                                "fetch_update" => match t.fetch_update(k, key, |_| Some(val.clone().into())) { Ok(Some(v)) => format!("some:{}", hex(&v)), Ok(None) => "none".into(), Err(e) => format!("err:{}", errname(&e)) },
+                                _ => match t.update_fetch(k, key, |_| Some(val.clone().into())) { Ok(Some(v)) => format!("some:{}", hex(&v)), Ok(None) => "none".into(), Err(e) => format!("err:{}", errname(&e)) },
+                            }
+                        } else {
+                            "err:NoTx".into()
+                        }
+                    }
+                    "get" | "contains_key" | "size_of" | "iter" | "range" | "prefix" | "first_key_value" | "last_key_value" | "len" | "is_empty" | "range_key" | "prefix_key" | "iter_rev" => {
+                        let k = w.ks.get(a[2]).expect("ks").inner().clone();
+                        let key = a.get(3).map(|x| unhex(x)).unwrap_or_default();
+                        if let Some(t) = w.otx.get(&id) {
+                            read_view(t, &k, a[1], &key)
+                        } else if let Some(t) = w.stx.get(&id) {
+                            read_view(t, &k, a[1], &key)
+                        } else {
+                            "err:NoTx".into()
+                        }
+                    }
+                    "commit" => {
+                        if let Some(t) = w.otx.remove(&id) {
+                            match t.commit() {
+                                Ok(Ok(())) => "ok".into(),
+                                Ok(Err(_)) => "conflict".into(),
+                                Err(e) => format!("err:{}", errname(&e)),
+                            }
+                        } else if let Some(t) = w.stx.remove(&id) {
+                            res(&t.commit())
+                        } else {
+                            "err:NoTx".into()
+                        }
+                    }
+                    "rollback" => {
+                        if let Some(t) = w.otx.remove(&id) {
+                            t.rollback();
+                            "ok".into()
+                        } else if let Some(t) = w.stx.remove(&id) {
+                            t.rollback();
+                            "ok".into()
+                        } else {
+                            "err:NoTx".into()
+                        }
+                    }
+                    "drop" => {
+                        w.otx.remove(&id);
+                        w.stx.remove(&id);
+                        "ok".into()
+                    }
+                    _ => "err:BadCmd".into(),
+                }
+            }
+            "read_tx" => {
+                let s = match w.db.as_ref().expect("db") {
+                    Db::Opt(d) => d.read_tx(),
+                    Db::Single(d) => d.read_tx(),
+                    Db::Plain(d) => d.snapshot(),
+                };
+                w.snaps.insert(a[0].to_string(), s);
+                "ok".into()
+            }
+            "gc" => {
+                fjall::verif::gc(w.db.as_ref().expect("db").inner());
+                format!("ok watermark={}", fjall::verif::gc_watermark(w.db.as_ref().expect("db").inner()))
+            }
+            "open_snapshots" => format!("n={}", fjall::verif::open_snapshots(w.db.as_ref().expect("db").inner())),
+            "watermark" => format!("w={}", fjall::verif::gc_watermark(w.db.as_ref().expect("db").inner())),
+            "seqno" => {
+                let d = w.db.as_ref().expect("db").inner();
+                format!("seqno={} visible={}", d.seqno(), d.visible_seqno())
+            }
+            "rotate" => match w.ks.get(a[0]) {
+                Some(k) => match k.inner().rotate_memtable() {
+                    Ok(b) => format!("ok rotated={b}"),
+                    Err(e) => format!("err:{}", errname(&e)),
+                },
+                None => "err:NoKs".into(),
+            },
+            "worker_step" => match fjall::verif::worker_step(w.db.as_ref().expect("db").inner()) {
+                Ok(Some(_)) => "ok ran".into(),
+                Ok(None) => "ok empty".into(),
+                Err(e) => format!("err:{}", errname(&e)),
+            },
+            "worker_drain" => {
+                let mut n = 0;
+                let mut out = String::from("ok");
+                loop {
+                    match fjall::verif::worker_step(w.db.as_ref().expect("db").inner()) {
+                        Ok(Some(_)) => n += 1,
+                        Ok(None) => break,
+                        Err(e) => {
+                            out = format!("err:{}", errname(&e));
+                            break;
+                        }
+                    }
+                    if n > 200 {
+                        break;
+                    }
+                }
+                format!("{out} steps={n}")
+            }
+            "major_compact" => match w.ks.get(a[0]) {
+                Some(k) => res(&k.inner().major_compact()),
+                None => "err:NoKs".into(),
+            },
             "snapshot" => {
                 let s = w.db.as_ref().expect("db").inner().snapshot();
                 w.snaps.insert(a[0].to_string(), s);
